@@ -238,6 +238,16 @@ def replay_file(mod: Any, cid: str, path: str) -> int:
         except PathAbort:
             print(f"NOT-REPRODUCED property={cid} (scenario outside the harness precondition)")
             return 0
+        except Exception as ex:  # noqa: BLE001
+            from symx.engine import unexpected_signature
+
+            sig = unexpected_signature(ex)
+            print(f"scenario raised {type(ex).__name__}: {ex}"[:600])
+            if sig == payload.get("signature"):
+                print(f"VIOLATION property={cid} replay={path}")
+                return 1
+            print(f"NOT-REPRODUCED property={cid} (different signature {sig})")
+            return 0
         print(f"NOT-REPRODUCED property={cid}")
         return 0
     # X / Z obligations: module specific
